@@ -13,7 +13,8 @@ EXPLANATION = (
     "of core/symbols/*.py, core/coordinate_systems, core/experimental/vectors and the three printers: N1 the internal name given to "
     "the SymPy base constructor of Symbol, IndexedSymbol, Function, Quantity, CoordinateSystem (+transform/rotate) and the "
     "experimental VectorFunction is, on every path, next_name(<literal prefix>) with no data dependence on the display name "
-    "(one frozen exception: IndexedSymbol re-created by SymPy from an existing symbol); VectorSymbol hashes by id(self); N2 "
+    "(one frozen exception: IndexedSymbol re-created by SymPy from an existing symbol); VectorSymbol hashes by id(self); no symbol class overrides identity or caches its constructor; "
+    "coordinates_transform / coordinates_rotate return a fresh system on every path; N2 "
     "next_name is prefix + str(next_id(prefix)), all literal prefixes end in a letter and none is another prefix followed by digits "
     "(so (prefix, n) -> name is injective), and the counters are written only by next_id, by +1; N3 the three clone helpers pass "
     "source.dimension, default both display names to the source's, apply the subscript to both names, and default the assumptions "
